@@ -29,6 +29,7 @@ MAXREPEAT = sre_c.MAXREPEAT
 
 CATEGORY_REPS = [' ', '\t', '\n', '\r', '\x0b', '\x0c', '\x1c', '\x85', '\xa0', ' ', '　',
                  '0', '5', '9', '١', '१', '１', '²', '⅕',
+                 '\u017f', '\u212a', '\u0131', '\u0130', '\ufb01',        # letters that only case-fold into ASCII (long s, Kelvin, dotless i ...)
                  'a', 'm', 'z', 'A', 'M', 'Z', '_', '\xe9', '\xdf', 'İ', 'K', '日',
                  '\x00', '\x1f', '\x7f', '"', "'", '\\', '(', ')', '$', '.', ',', ';', '#', '!', '?', '/', '-', '+', '%',
                  '^', '&', '*', ':', '<', '>', '=', '{', '}', '[', ']', '@', '~', '|', '`', '\U0001f600']
@@ -37,7 +38,8 @@ CATEGORY_REPS = [' ', '\t', '\n', '\r', '\x0b', '\x0c', '\x1c', '\x85', '\xa0', 
 class Pred(object):
     """Character predicate."""
 
-    def __init__(self, items, negate=False, ignorecase=False, any_=False, dotall=False):
+    def __init__(self, items, negate=False, ignorecase=False, any_=False, dotall=False, ascii_=False):
+        self.ascii = ascii_
         self.items = items          # list of ('lit', c) | ('range', lo, hi) | ('cat', name)
         self.negate = negate
         self.ignorecase = ignorecase
@@ -48,8 +50,12 @@ class Pred(object):
         if self.any_:
             return self.dotall or ch != '\n'
         cands = [ch]
-        if self.ignorecase:
+        if self.ignorecase and not (self.ascii and ord(ch[0]) > 127):
             cands = set([ch, ch.lower(), ch.upper(), ch.swapcase()])
+            if ch == '\u0130':
+                cands.add('i')      # sre lowers U+0130 to a plain i
+            if self.ascii:
+                cands = set(c for c in cands if len(c) == 1 and ord(c) < 128)       # re.ASCII: only ASCII letters fold
         hit = False
         for c in cands:
             o = ord(c) if len(c) == 1 else -1
@@ -61,7 +67,7 @@ class Pred(object):
                     if it[1] <= o <= it[2]:
                         hit = True
                 elif it[0] == 'cat':
-                    if _category(it[1], c):
+                    if _category(it[1], c, self.ascii):
                         hit = True
             if hit:
                 break
@@ -83,11 +89,13 @@ class Pred(object):
             (chr(i[1]) if i[0] == 'lit' else ('%s-%s' % (chr(i[1]), chr(i[2])) if i[0] == 'range' else i[1])) for i in self.items))
 
 
-def _category(name, c):
+def _category(name, c, ascii_=False):
     if len(c) != 1:
         return False
     n = str(name)
     neg = 'NOT_' in n
+    if ascii_ and ord(c) > 127:
+        return neg          # re.ASCII: \d \s \w are the ASCII classes
     if 'DIGIT' in n:
         r = unicodedata.category(c) == 'Nd'
     elif 'SPACE' in n:
@@ -169,7 +177,7 @@ def build(pattern, flags=0, lookahead_consumes=True):
         raise AnalysisError('regex %r does not parse: %s' % (pattern, e))
     nfa = NFA()
     st = {'ic': bool(tree.state.flags & sre_c.SRE_FLAG_IGNORECASE), 'dotall': bool(tree.state.flags & sre_c.SRE_FLAG_DOTALL),
-          'lookahead_consumes': lookahead_consumes, 'groups': {}}
+          'ascii': bool(tree.state.flags & sre_c.SRE_FLAG_ASCII), 'lookahead_consumes': lookahead_consumes, 'groups': {}}
     s = nfa.new()
     f = _seq(nfa, tree, s, st, top=True)
     nfa.start, nfa.final = s, f
@@ -200,17 +208,17 @@ def _pred_of_in(av, st):
             items.append(('cat', a))
         else:
             raise Unsupported('set item %s' % op)
-    return Pred(items, negate, st['ic'])
+    return Pred(items, negate, st['ic'], ascii_=st.get('ascii', False))
 
 
 def _node(nfa, op, av, s, st, last=False, first=False):
     if op is sre_c.LITERAL:
         t = nfa.new()
-        nfa.add_chr(s, Pred([('lit', av)], False, st['ic']), t)
+        nfa.add_chr(s, Pred([('lit', av)], False, st['ic'], ascii_=st.get('ascii', False)), t)
         return t
     if op is sre_c.NOT_LITERAL:
         t = nfa.new()
-        nfa.add_chr(s, Pred([('lit', av)], True, st['ic']), t)
+        nfa.add_chr(s, Pred([('lit', av)], True, st['ic'], ascii_=st.get('ascii', False)), t)
         return t
     if op is sre_c.ANY:
         t = nfa.new()
@@ -497,7 +505,8 @@ def group_nfas(pattern, flags=0):
                 group, add_flags, del_flags, p = av
                 if group is not None:
                     nfa = NFA()
-                    st = {'ic': bool(tree.state.flags & sre_c.SRE_FLAG_IGNORECASE), 'dotall': False, 'lookahead_consumes': True, 'groups': {}}
+                    st = {'ic': bool(tree.state.flags & sre_c.SRE_FLAG_IGNORECASE), 'dotall': False, 'lookahead_consumes': True, 'groups': {},
+                          'ascii': bool(tree.state.flags & sre_c.SRE_FLAG_ASCII)}
                     s0 = nfa.new()
                     f0 = _seq(nfa, p, s0, st)
                     nfa.start, nfa.final = s0, f0
